@@ -385,8 +385,44 @@ CORPUS = [["20.0 g x\nf(9.8 g x, 9.8 g x)"], ["0g flour\nmix(1/2 of flour, 1/2 o
           ["1 kg x\nf(970 g x, remaining x)"], ["1 kg x\nf(1000 g x, remaining x)"], ["1 L milk\nheat(500 ml milk)\nwhisk(0.5 l milk)"], ["1 kg x\nf(1/3 of x, 1/3 of x)"], ["a, b = split(1 kg x)\nf(1/2 of a, 1/2 of a)\ng(b)"]]
 
 
+# documented verdicts written by hand (the exact meaning computed by lint_exact looks at the compiled recipe, so it cannot see a sub recipe that
+# was wrongly folded into a use that is not the whole of it): a single use a few per cent off the whole must be reported
+EXPECTED = [
+    (["1kg spam\nfry(960g of spam, eggs)"], ["sub_recipe_not_used_up"]),
+    (["1 pint milk\nheat(550ml of milk, sugar)"], ["sub_recipe_not_used_up"]),
+    (["100 peas\nboil(97 peas, water)"], ["sub_recipe_not_used_up"]),
+    (["100 peas\nboil(103 peas, water)"], ["sub_recipe_used_too_much"]),
+    (["1kg spam\nfry(1000g of spam, eggs)"], []),
+    (["1kg spam\nfry(995g of spam, eggs)"], []),
+    (["100 peas\nboil(100 peas, water)"], []),
+    (["2 onions\nfry(1 onions)\nboil(1 onions)"], []),
+    (["2 onions\nfry(1 onions)"], ["sub_recipe_not_used_up"]),
+    (["1 egg\nfry(eggs, oil)"], ["unused_ingredient"]),
+]
+
+
+def check_expected():
+    out = []
+    for texts, want in EXPECTED:
+        try:
+            rs = rg_compile(list(texts))
+            got = real_kinds(rs)
+            scaled = [real_kinds([r.scale(k) for r in rs]) for k in (3, Fraction(1, 2))]
+        except Exception as e:  # noqa
+            out.append(("C20:lint-raises:%s" % type(e).__name__, "%r" % (texts,)))
+            continue
+        if sorted(got) != sorted(want):
+            out.append(("C20:verdict-differs-from-documented-meaning", "%r: reported %r, documented %r" % (texts, got, want)))
+        elif any(sorted(g) != sorted(want) for g in scaled):
+            out.append(("C20:verdict-changes-under-scaling:off-threshold", "%r: %r when scaled, %r unscaled" % (texts, scaled, got)))
+    return out
+
+
 def oracle(run):
     rng = run.rng
+    run.case(("expected",), True, kind="hand-written-verdicts")
+    for sig, detail in check_expected():
+        run.violate(sig, detail, {"expected": True})
     srcs = list(CORPUS) + [gen_split(rng) for _ in range(run.budget(700, 15000))]
     for d, t, _ in c01.gen_cases(run, run.budget(150, 4000)):
         srcs.append(t)
@@ -419,6 +455,11 @@ def oracle(run):
 
 def replay(run, obj):
     r = obj["replay"]
+    if r.get("expected"):
+        res = check_expected()
+        for x in res:
+            print(*x)
+        return bool(res)
     if "cli_files" in r:
         res = check_cli(r["cli_files"], r["ignore"])
         for x in res:
